@@ -8,7 +8,6 @@ import (
 	"io"
 	"net"
 	"strings"
-	"sync"
 	"testing"
 	"time"
 
@@ -221,10 +220,12 @@ func (w *wconn) write(api, kind string, data []byte, chunks []int) (wire []byte,
 // ---- operations on a reader connection --------------------------------
 
 type rconn struct {
-	c    *webtransport.Conn
-	s    *memStream
-	sess *shimSession
-	cur  io.Reader
+	c       *webtransport.Conn
+	s       *memStream
+	sess    *shimSession
+	cur     io.Reader
+	last    []rmsg
+	lastErr string
 }
 
 func newR(limit int64, tailFail, closeFails bool, in []byte, frags []int, rbuf int) *rconn {
@@ -376,13 +377,67 @@ func lenClass(n, wbuf int) string {
 	return "64bit,>2(wbuf+9)"
 }
 
-var wtMu sync.Mutex
+
+// ---- op interpreter (the generators and --replay both go through it) ----
+
+type wtInterp struct {
+	w *wconn
+	r *rconn
+}
+
+func (it *wtInterp) Exec(line string) string {
+	t := strings.Fields(line)
+	if len(t) < 2 || t[0] != "wt" {
+		return "bad-op"
+	}
+	switch t[1] {
+	case "wnew":
+		it.w = newW(t[2] == "1", atoi(t[3]), t[4] == "1")
+		return "ok"
+	case "w":
+		wire, fault := it.w.write(t[2], t[3], unhx(t[4]), unints(t[5]))
+		out := "wire " + hx(wire)
+		if fault != "" {
+			out += " " + fault
+		}
+		return out
+	case "rnew":
+		if it.r != nil {
+			it.r.done()
+		}
+		it.r = newR(int64(atoi(t[2])), t[3] == "f", t[4] == "1", unhx(t[5]), unints(t[6]), rbufOf(t))
+		return "ok"
+	case "next":
+		return it.r.next()
+	case "nextn":
+		return it.r.nextN(atoi(t[2]))
+	case "read":
+		return it.r.readN(atoi(t[2]))
+	case "readall":
+		return it.r.readAll()
+	case "msgs":
+		got, errc := it.r.readMsgs(len(it.r.s.in) + 3)
+		it.r.last, it.r.lastErr = got, errc
+		return fmtMsgs(got, errc)
+	case "closes":
+		return "closes " + ints(it.r.sess.codes)
+	}
+	return "bad-op"
+}
+
+func rbufOf(t []string) int {
+	if len(t) > 7 {
+		return atoi(t[7])
+	}
+	return 0
+}
 
 // ---- families -----------------------------------------------------------
 
 func init() {
 	families["wt-write"] = famWTWrite
 	families["wt-read"] = famWTRead
+	interpreters["wt"] = func() interface{ Exec(string) string } { return &wtInterp{} }
 }
 
 func boundaryLens(rng interface{ IntN(int) int }, wbuf int, thorough bool) []int {
@@ -427,7 +482,6 @@ func famWTWrite(t *testing.T, r *Rec) {
 		for _, server := range []bool{true, false} {
 			for _, pool := range []bool{false, true} {
 				lens := boundaryLens(r.rng, wbuf, r.thorough())
-				// sequences of 1..5 messages on one connection
 				for len(lens) > 0 {
 					k := 1 + r.rng.IntN(5)
 					if k > len(lens) {
@@ -436,42 +490,40 @@ func famWTWrite(t *testing.T, r *Rec) {
 					seq := lens[:k]
 					lens = lens[k:]
 					r.scenarios++
-					w := newW(server, wbuf, pool)
-					r.Op(fmt.Sprintf("wt wnew %s %d %s", b01(server), wbuf, b01(pool)), "ok")
-					var sent []rmsg
+					it := &wtInterp{}
 					var replay []string
-					replay = append(replay, r.ops[len(r.ops)-1])
+					do := func(op string) string {
+						out := it.Exec(op)
+						r.Op(op, out)
+						replay = append(replay, op)
+						return out
+					}
+					do(fmt.Sprintf("wt wnew %s %d %s", b01(server), wbuf, b01(pool)))
+					var sent []rmsg
 					for _, n := range seq {
 						api := apis[r.rng.IntN(len(apis))]
-						kind := "tb"[r.rng.IntN(2) : r.rng.IntN(2)+1]
-						kind = []string{"t", "b"}[r.rng.IntN(2)]
+						kind := []string{"t", "b"}[r.rng.IntN(2)]
 						data := payload(r.rng, n)
 						var chunks []int
 						if api == "stream" || api == "readfrom" {
 							chunks = chunking(r.rng, n, hows[r.rng.IntN(len(hows))])
 						}
-						wire, fault := w.write(api, kind, data, chunks)
-						op := fmt.Sprintf("wt w %s %s %s %s", api, kind, hx(data), ints(chunks))
-						out := "wire " + hx(wire)
-						if fault != "" {
-							out += " " + fault
-						}
-						r.Op(op, out)
-						replay = append(replay, op)
+						out := do(fmt.Sprintf("wt w %s %s %s %s", api, kind, hx(data), ints(chunks)))
 						sent = append(sent, rmsg{kind, data})
-						ck := fmt.Sprintf("%s/%s/srv=%s/pool=%s/%s/chunks=%d", api, kind, b01(server), b01(pool), lenClass(n, wbuf), min(len(chunks), 3))
-						r.Cover(ck)
+						r.Cover(fmt.Sprintf("%s/%s/srv=%s/pool=%s/%s/chunks=%d", api, kind, b01(server), b01(pool), lenClass(n, wbuf), min(len(chunks), 3)))
 						// C14 monitor: exactly one frame in the Engine.IO format
-						if want := specEncode(kind, data, formMin); !bytes.Equal(wire, want) || fault != "" {
+						if want := "wire " + hx(specEncode(kind, data, formMin)); out != want {
 							r.Violate("C14", sigf("C14/encoder/%s/srv=%s/%s", api, b01(server), lenClass(n, wbuf)),
-								fmt.Sprintf("wire bytes differ from one spec frame (len %d, got %d bytes, want %d) %s", n, len(wire), len(want), fault), replay)
+								fmt.Sprintf("wire bytes of a %d-byte message differ from one spec frame: %.80s", n, out), replay)
 						}
 					}
 					// C13 monitor: the peer reads exactly the messages written
 					frags := chunking(r.rng, 64, "random")
-					rc := newR(0, false, false, w.s.out.Bytes(), frags, []int{0, 16, 64}[r.rng.IntN(3)])
-					got, errc := rc.readMsgs(len(sent) + 2)
-					rc.done()
+					rbuf := []int{0, 16, 64}[r.rng.IntN(3)]
+					do(fmt.Sprintf("wt rnew 0 e 0 %s %s %d", hx(it.w.s.out.Bytes()), ints(frags), rbuf))
+					do("wt msgs")
+					got, errc := it.r.last, it.r.lastErr
+					it.r.done()
 					okRT := len(got) == len(sent) && errc == "uEOF"
 					for i := 0; okRT && i < len(sent); i++ {
 						okRT = got[i].kind == sent[i].kind && bytes.Equal(got[i].data, sent[i].data)
@@ -484,7 +536,7 @@ func famWTWrite(t *testing.T, r *Rec) {
 						r.Violate("C13", sigf("C13/roundtrip/srv=%s/pool=%s/%s", b01(server), b01(pool), cls),
 							fmt.Sprintf("peer read %d messages (end %s) for %d written", len(got), errc, len(sent)), replay)
 					}
-					if len(r.samples) < 3 && len(seq) > 1 {
+					if len(r.samples) < 3 && len(seq) > 1 && len(strings.Join(replay, ";")) < 2000 {
 						r.Sample(strings.Join(replay, " ; "))
 					}
 				}
@@ -610,25 +662,28 @@ func famWTRead(t *testing.T, r *Rec) {
 			tl = "f"
 		}
 		r.scenarios++
-		replay := []string{fmt.Sprintf("wt rnew %d %s %s %s %s", limit, tl, b01(closeFails), hx(sc.stream), ints(frags))}
-		r.Op(replay[0], "ok")
+		it := &wtInterp{}
+		var replay []string
+		do := func(op string) string {
+			out := it.Exec(op)
+			r.Op(op, out)
+			replay = append(replay, op)
+			return out
+		}
+		do(fmt.Sprintf("wt rnew %d %s %s %s %s %d", limit, tl, b01(closeFails), hx(sc.stream), ints(frags), rbuf))
 		pattern := r.rng.IntN(3) // 0: message loop, 1: explicit next/read ops, 2: next + partial + abandon
 		if sc.name == "valid" && limit == 0 && r.rng.IntN(3) > 0 {
 			pattern = 0
 		}
-		rc := newR(limit, tailFail, closeFails, sc.stream, frags, rbuf)
+		rc := it.r
 		r.Cover(fmt.Sprintf("%s/limit=%d/tail=%s/pattern=%d", sc.name, min(int(limit), 2), tl, pattern))
 		switch pattern {
 		case 0:
-			got, errc := rc.readMsgs(len(sc.stream) + 3)
-			r.Op("wt msgs", fmtMsgs(got, errc))
-			replay = append(replay, "wt msgs")
+			do("wt msgs")
+			got, errc := rc.last, rc.lastErr
 			monitorRead(r, sc.name, sc.valid, sc.stream, sc.msgs, sc.bounds, limit, tailFail, got, errc, rc, replay)
-			// sticky
 			for i := 0; i < 2; i++ {
-				o := rc.next()
-				r.Op("wt next", o)
-				replay = append(replay, "wt next")
+				o := do("wt next")
 				if errc != "-" && errc != "panic" && o != "err "+errc {
 					r.Violate("C15", "C15/sticky/"+sc.name, "later NextReader reported "+o+" after "+errc, replay)
 				}
@@ -637,9 +692,7 @@ func famWTRead(t *testing.T, r *Rec) {
 			steps := 2 + r.rng.IntN(6)
 			failed := ""
 			for i := 0; i < steps; i++ {
-				o := rc.next()
-				r.Op("wt next", o)
-				replay = append(replay, "wt next")
+				o := do("wt next")
 				if strings.HasPrefix(o, "err ") {
 					if failed != "" && o != failed {
 						r.Violate("C15", "C15/sticky/"+sc.name, "error changed from "+failed+" to "+o, replay)
@@ -656,17 +709,17 @@ func famWTRead(t *testing.T, r *Rec) {
 				}
 				if pattern == 1 || r.rng.IntN(2) == 0 {
 					n := 1 + r.rng.IntN(200)
-					op := fmt.Sprintf("wt read %d", n)
-					r.Op(op, rc.readN(n))
-					replay = append(replay, op)
+					o := do(fmt.Sprintf("wt read %d", n))
+					if f := strings.Fields(o); len(f) == 3 && len(unhx(f[1])) > n {
+						r.Violate("C15", "C15/bounded/"+sc.name, "Read returned more than asked", replay)
+					}
 				}
 				if pattern == 1 {
-					r.Op("wt readall", rc.readAll())
-					replay = append(replay, "wt readall")
+					do("wt readall")
 				}
 			}
 		}
-		r.Op("wt closes", "closes "+ints(rc.sess.codes))
+		do("wt closes")
 		rc.done()
 		if len(r.samples) < 6 && len(sc.stream) < 60 {
 			r.Sample(strings.Join(replay, " ; "))
@@ -674,12 +727,14 @@ func famWTRead(t *testing.T, r *Rec) {
 	}
 	// the documented guard: the 1000th failing NextReader panics, none before
 	{
-		rc := newR(0, false, false, nil, nil, 0)
-		r.Op("wt rnew 0 e 0 - -", "ok")
-		r.Op("wt nextn 998", rc.nextN(998))
-		r.Op("wt next", rc.next())
-		r.Op("wt next", rc.next())
-		rc.done()
+		it := &wtInterp{}
+		for _, op := range []string{"wt rnew 0 e 0 - - 0", "wt nextn 998", "wt next", "wt next"} {
+			r.Op(op, it.Exec(op))
+		}
+		if r.outs[len(r.outs)-2] != "err uEOF" || r.outs[len(r.outs)-1] != "panic" {
+			r.Violate("C15", "C15/guard", "guard did not trip exactly at the 1000th failing NextReader: "+r.outs[len(r.outs)-2]+", "+r.outs[len(r.outs)-1], r.ops[len(r.ops)-4:])
+		}
+		it.r.done()
 	}
 }
 
